@@ -4,6 +4,7 @@ from .common import *
 from .data import QUOTES, new_format
 from vf.unit import ProofUnit, NativeUnit, Oracle, sweep
 from vf.model import *
+from vf import findings
 
 ROWT = Abs("Row")
 
@@ -179,7 +180,29 @@ def unit_audit_csv():
             f, t = c
             return {"item_delimiter": f.item_delimiter, "quote_character": f.quote_character, "escape_character": f.escape_character, "quoting": f.quoting, "line_delimiter": f.line_delimiter, "table": t,
                     "call": "DelimitedRowWriter(StringIO, format).write_row(...) then delimited_rows(StringIO(text), format)"}
-        return [sweep("A-CSV/round-trip over all accepted delimited formats", cases(), check, "audit",
+        # the same with "skip initial space" switched on (recorded finding K-9: a cell with a leading blank loses it - the csv writer
+        # does not quote it, the reader skips it; every other table has to round-trip)
+        known = findings.is_known("K-9", "C12"); k9 = []
+        def skip_cases():
+            from cutplace import data
+            for k, f0 in enumerate(accepted_formats(ctx)):
+                if f0.line_delimiter != "any" or f0.escape_character != '"' or f0.item_delimiter == " ": continue
+                f = data.DataFormat("delimited")
+                f.set_property("item delimiter", repr(f0.item_delimiter) if f0.item_delimiter not in "'\\" else '"%s"' % (f0.item_delimiter if f0.item_delimiter != "\\" else "\\\\"))
+                f.set_property("quote character", f0.quote_character); f.set_property("quoting", "minimal" if f0.quoting == csv.QUOTE_MINIMAL else "all"); f.set_property("skip initial space", "True"); f.validate()
+                for t in tables_for(f, ctx, k): yield (f, t)
+        def skip_check(c):
+            bad = check(c)
+            if bad and known and c[0].quoting == csv.QUOTE_MINIMAL and any(cell.startswith(" ") for r in c[1] for cell in r):
+                k9.append((c, bad)); return None
+            return bad
+        extra = [sweep("A-CSV/round-trip with skip initial space", skip_cases(), skip_check, "audit", "the accepted formats with line delimiter any and the default escape character, skip initial space on; same tables" + (" (cells with a leading blank under minimal quoting: recorded finding K-9)" if known else ""),
+                       describe=desc, function="csv.reader/csv.writer via rowio", unit="C12.audit.A-CSV", props=["C12", "C14"])]
+        if k9:
+            c, bad = k9[0]
+            extra.append(Result("A-CSV/K-9 witness: with skip initial space a cell with a leading blank does not round-trip", "audit", FAILED, "native", finding="K-9", cases=len(k9), props=["C12", "C14"], detail=str(bad)[:300],
+                                replay={"verdict": "confirmed", "input": desc(c), "expected": bad.get("expected"), "observed": bad.get("observed")}))
+        return extra + [sweep("A-CSV/round-trip over all accepted delimited formats", cases(), check, "audit",
                       "every format accepted by the CID loader from 14 item delimiters x 20 quote characters x 2 escape characters x 2 quoting modes x 4 line delimiters; tables: all single cells up to length 2 over {x, blank, CR, LF, delimiter, quote, escape}, a rotating selection of 2-column rows, one 3x2 table (thorough: all pairs + random 5x4 tables)",
                       describe=desc, function="csv.reader/csv.writer via rowio", unit="C12.audit.A-CSV", props=["C12", "C14"])]
     return NativeUnit("C12.audit.A-CSV", "audit of axiom A-CSV: writing then reading any table of strings under every accepted delimited format is the identity", ["C12", "C14"], run, kind="audit", timeout=1800)
